@@ -382,6 +382,9 @@ enum ImplicitMappingState {
     ///
     /// Note that this state is not set immediately (we need to have encountered the `:` to know).
     Inside,
+    /// The innermost open flow collection is an explicit `{` mapping: its `,` and `:` belong to
+    /// it and neither start nor end an implicit mapping of an enclosing sequence.
+    ExplicitMapping,
 }
 
 /// The YAML scanner.
@@ -1403,6 +1406,8 @@ impl<'input, T: Input> Scanner<'input, T> {
 
         if tok == TokenType::FlowMappingStart {
             self.flow_mapping_started = true;
+            self.implicit_flow_mapping_states
+                .push(ImplicitMappingState::ExplicitMapping);
         } else {
             self.implicit_flow_mapping_states
                 .push(ImplicitMappingState::Possible);
@@ -1424,6 +1429,10 @@ impl<'input, T: Input> Scanner<'input, T> {
         if matches!(tok, TokenType::FlowSequenceEnd) {
             self.end_implicit_mapping(self.mark);
             // We are out exiting the flow sequence, nesting goes down 1 level.
+            self.implicit_flow_mapping_states.pop();
+        } else if self.implicit_flow_mapping_states.last()
+            == Some(&ImplicitMappingState::ExplicitMapping)
+        {
             self.implicit_flow_mapping_states.pop();
         }
 
@@ -2402,8 +2411,10 @@ impl<'input, T: Input> Scanner<'input, T> {
     fn fetch_value(&mut self) -> ScanResult {
         let sk = self.simple_keys.last().unwrap().clone();
         let start_mark = self.mark;
-        let is_implicit_flow_mapping =
-            !self.implicit_flow_mapping_states.is_empty() && !self.flow_mapping_started;
+        let is_implicit_flow_mapping = matches!(
+            self.implicit_flow_mapping_states.last(),
+            Some(ImplicitMappingState::Possible | ImplicitMappingState::Inside)
+        ) && !self.flow_mapping_started;
         if is_implicit_flow_mapping {
             *self.implicit_flow_mapping_states.last_mut().unwrap() = ImplicitMappingState::Inside;
         }
